@@ -18,6 +18,7 @@ import struct
 import sys
 import termios as _termios
 import threading
+import types
 
 sys.path.insert(0, os.path.dirname(os.path.abspath(__file__)))
 from common import framework as fw  # noqa: E402
@@ -227,8 +228,13 @@ def _probe_body(a):
     return v
 
 
+_tsc_raise = [False]
+
+
 def _tsc_body():
     EVENTS.append("bt")
+    if _tsc_raise[0]:
+        raise RuntimeError("probe body failed")
     return tuple(vt.win[:4])
 
 
@@ -236,7 +242,29 @@ probe = utils.cached(_probe_body)
 tsc = utils.terminal_size_cached(_tsc_body)
 
 
+# the objects the package was imported with (a name bound to them at import time keeps pointing here)
+ORIG_CC, ORIG_CC_LOCK, ORIG_TTY_LOCK = utils._cell_size_cache, utils._cell_size_lock, utils._tty_lock
+
+
+def start_process():
+    """`multiprocessing.Process.start()` as the library wraps it in a process with an active terminal
+    (`BaseProcess.start = wraps(BaseProcess.start)(_process_start_wrapper)`), with a no-op real start:
+    the first call rebinds `utils._cell_size_cache/_cell_size_lock/_tty_lock` to shared objects."""
+    w = utils._process_start_wrapper
+    had, old = hasattr(w, "__wrapped__"), getattr(w, "__wrapped__", None)
+    w.__wrapped__ = lambda self, *a, **k: None
+    try:
+        w(types.SimpleNamespace())
+    finally:
+        if had:
+            w.__wrapped__ = old
+        else:
+            del w.__wrapped__
+
+
 def reset_all():
+    utils._cell_size_cache, utils._cell_size_lock, utils._tty_lock = ORIG_CC, ORIG_CC_LOCK, ORIG_TTY_LOCK
+    _tsc_raise[0] = False
     utils._queries_enabled = True
     utils._swap_win_size = False
     utils._query_timeout = 0.1
@@ -366,6 +394,15 @@ def do_op(op):
         if k == "tsci":
             tsc._invalidate_terminal_size_cache()
             return "-"
+        if k == "tscr":
+            _tsc_raise[0] = True
+            try:
+                return "st %d %d %d %d" % tsc()
+            finally:
+                _tsc_raise[0] = False
+        if k == "sp":
+            start_process()
+            return "-"
         if k == "pr":
             return "n%d" % probe(op[1])
         if k == "pri":
@@ -452,7 +489,8 @@ def check_history(d, recs, fresh=None):
         k = op[0]
         win, swap, q = b["win"], b["swap"], b["queries"]
         eff = (k == "swon" and not swap) or (k == "swoff" and swap) or (k == "qon" and not q)
-        if val.startswith("err:") and not (k == "sr" or (k == "isup" and val == "err:AttributeError")):
+        if val.startswith("err:") and not (k == "sr" or (k == "isup" and val == "err:AttributeError")
+                                           or (k == "tscr" and val == "err:RuntimeError")):
             fails.append(Failure(f"raises/{k}/{val[4:]}", f"op {i} {op} raised {val[4:]}"))
         # -- body-run accounting (cached_once) ------------------------------------------------
         for e in ev:
@@ -528,6 +566,21 @@ def check_history(d, recs, fresh=None):
                 fails.append(Failure("cached_once/terminal_size_cached",
                                      f"op {i}: body {'ran' if ran else 'did not run'} (last size {tsc_last and tsc_last[:2]}, now {win[:2]})"))
             tsc_last = win
+        if k == "tscr":  # a call whose body raises if it runs: nothing may be memoized by it
+            if tsc_last is not None and tsc_last[:2] == win[:2] and tsc_last != win:
+                tsc_ok = False
+            ran = "bt" in ev
+            must = tsc_last is None or tsc_last[:2] != win[:2]
+            if ran != must:
+                fails.append(Failure("cached_once/terminal_size_cached",
+                                     f"op {i}: (raising) body {'ran' if ran else 'did not run'} (last size {tsc_last and tsc_last[:2]}, now {win[:2]})"))
+            if ran and val != "err:RuntimeError":
+                fails.append(Failure("stale/terminal_size_cached-raising",
+                                     f"op {i}: the body raised but the call returned {val}"))
+            if not ran:
+                if tsc_ok and val != "st %d %d %d %d" % tuple(win[:4]):
+                    fails.append(Failure("stale/terminal_size_cached", f"op {i}: probe returned {val} for window {win}"))
+                tsc_last = win
         if k == "tsci":
             tsc_last = None
             tsc_ok = True
@@ -857,7 +910,12 @@ def gen_history(rng):
     elif shape == "decorators":
         for _ in range(rng.randrange(4, 16)):
             ops.append(rng.choice([("pr", 0), ("pr", 1), ("pr", 2), ("pri",), ("tsc",), ("tsc",), ("tsci",),
+                                   ("tscr",), ("tscr",),
                                    ("rs", win_for()), ("rs", win_for(fresh_px=rng.random() < 0.2))]))
+            # the body raises on the first computation at a new size / after an invalidation, then a
+            # plain call at the same size
+            if rng.random() < 0.25:
+                ops += [rng.choice([("rs", win_for()), ("tsci",)]), ("tscr",), ("tsc",)]
     else:
         for _ in range(rng.randrange(3, 26)):
             r = rng.random()
@@ -871,8 +929,14 @@ def gen_history(rng):
                 ops.append(some_ratio())
             elif r < 0.96:
                 ops.append(("acr", rng.choice([None, True, False])))
+            elif r < 0.98:
+                ops.append(rng.choice([("tsci",), ("pri",), ("tscr",)]))
             else:
-                ops.append(rng.choice([("tsci",), ("pri",)]))
+                ops.append(("sp",))
+    # a subprocess started early (the cache moves into a shared Array): everything after must still hold
+    if shape not in ("decorators", "support") and rng.random() < 0.25:
+        ops.insert(rng.randrange(0, min(3, len(ops)) + 1), ("sp",))
+        shape += "+sp"
     d = dict(term=term, win=list(win), ops=[list(o) if o[0] != "rs" else ["rs", list(o[1])] for o in ops])
     return d, shape + "/" + px_mode
 
@@ -906,6 +970,161 @@ def _consts(code):
     return out
 
 
+FLAG_NAMES = ("_swap_win_size", "_queries_enabled")
+
+
+def toggle_steps(fn, depth=0):
+    """the order of the atomic steps of a toggle, read off its AST: 0 write the flag, 1 take
+    `_cell_size_lock`, 2 clear `_cell_size_cache`, 3 release"""
+    import ast
+    import inspect
+    import textwrap
+
+    tree = ast.parse(textwrap.dedent(inspect.getsource(fn))).body[0]
+    steps = []
+
+    def is_flag(t):
+        return isinstance(t, ast.Attribute) and t.attr in FLAG_NAMES
+
+    def is_cache(t):
+        return isinstance(t, ast.Subscript) and "_cell_size_cache" in ast.unparse(t.value)
+
+    def walk(stmts):
+        for st in stmts:
+            if isinstance(st, ast.If):
+                walk(st.body)
+                walk(st.orelse)
+            elif isinstance(st, ast.Assign) and any(is_flag(t) for t in st.targets):
+                steps.append(0)
+            elif isinstance(st, ast.Assign) and any(is_cache(t) for t in st.targets):
+                steps.append(2)
+            elif isinstance(st, ast.With):
+                locked = any("_cell_size_lock" in ast.unparse(i.context_expr) for i in st.items)
+                if locked:
+                    steps.append(1)
+                walk(st.body)
+                if locked:
+                    steps.append(3)
+            elif isinstance(st, ast.Expr) and isinstance(st.value, ast.Call) and isinstance(st.value.func, ast.Name) \
+                    and depth < 2:
+                g = getattr(term_image, st.value.func.id, None)
+                if inspect.isfunction(g) and g.__module__ == "term_image":
+                    steps.extend(toggle_steps(g, depth + 1))
+
+    walk(tree.body)
+    return steps
+
+
+TOGGLE_FNS = {"swon": "enable_win_size_swap", "swoff": "disable_win_size_swap", "qon": "enable_queries"}
+
+# ------------------------------------------------------------------------------------------
+# a toggle racing a concurrent get_cell_size(): the reader is injected at every line event of the toggle
+
+RACE_TERM = dict(ioctlFail=False, ansCell=True, ansArea=False, termux=False, kittyGfx=False, xtv=None, envProg=None,
+                 envVer=None, fg=None, bg=None, da1=True)
+RACE_WIN = {"swon": (80, 24, 800, 480, 10, 20, 800, 480), "swoff": (80, 24, 800, 480, 10, 20, 800, 480),
+            "qon": (80, 24, 0, 0, 10, 20, 800, 480)}
+_race_memo = {}
+
+
+def race_prepare(name):
+    reset_all()
+    vt.reset(RACE_TERM, RACE_WIN[name])
+    if name == "swoff":
+        term_image.enable_win_size_swap()
+    if name == "qon":
+        term_image.disable_queries()
+    utils.get_cell_size()  # the cache now holds the value for the old setting
+
+
+def race_explore(name):
+    """[(at, lineno, k, blocked, final flag, cache class, reader value class, final get == fresh)]"""
+    if name in _race_memo:
+        return _race_memo[name]
+    toggle = getattr(term_image, TOGGLE_FNS[name])
+    flag_attr = "_queries_enabled" if name == "qon" else "_swap_win_size"
+    target = name != "swoff"
+    win = RACE_WIN[name]
+    fr_new = fresh_table(RACE_TERM, win, name == "swon", True)["gcs"]
+    fr_old = fresh_table(RACE_TERM, win, name == "swoff", name != "qon")["gcs"]
+    points = []
+    at = 0
+    while at < 40:
+        race_prepare(name)
+        st = dict(seen=0, worker=None, info=None)
+        result, sig, done = [], threading.Event(), threading.Event()
+
+        def work():
+            lk = utils._cell_size_lock
+            if lk.acquire(False):
+                lk.release()
+                st["blocked"] = False
+            else:
+                st["blocked"] = True
+            sig.set()
+            try:
+                r = _real_gcs()
+                result.append("none" if r is None else "size %d %d" % tuple(r))
+            except Exception as e:  # pragma: no cover
+                result.append("err:" + type(e).__name__)
+            done.set()
+
+        def local_trace(frame, event, arg):
+            if event in ("line", "return"):
+                if st["seen"] == at:
+                    flag_new = getattr(utils, flag_attr) == target
+                    cleared = list(utils._cell_size_cache) == [0, 0, 0, 0]
+                    st["worker"] = threading.Thread(target=work, daemon=True)
+                    st["worker"].start()
+                    if not sig.wait(10):
+                        raise RuntimeError("reader never started")
+                    if not st["blocked"] and not done.wait(10):
+                        raise RuntimeError("reader never finished")
+                    b = st["blocked"]
+                    k = 0 if not flag_new else (1 if not b and not cleared else 2 if b and not cleared else 3 if b else 4)
+                    st["info"] = (frame.f_lineno - toggle.__code__.co_firstlineno, k, b)
+                st["seen"] += 1
+            return local_trace
+
+        def global_trace(frame, event, arg):
+            return local_trace if event == "call" and frame.f_code is toggle.__code__ else None
+
+        sys.settrace(global_trace)
+        try:
+            toggle()
+        finally:
+            sys.settrace(None)
+        if st["worker"] is None:
+            break
+        if not done.wait(10):
+            raise RuntimeError("concurrent get_cell_size() never finished")
+        cc = list(utils._cell_size_cache)
+        flag = getattr(utils, flag_attr)
+        now = fresh_now = fr_new if flag == target else fr_old
+        cache = "empty" if cc == [0, 0, 0, 0] else ("fresh" if ("none" if 0 in cc[2:] else "size %d %d" % tuple(cc[2:])) == now else "stale")
+        rv = "new" if result[0] == fr_new else "old" if result[0] == fr_old else result[0]
+        final = do_op(("gcs",))
+        points.append(dict(at=at, line=st["info"][0], k=st["info"][1], blocked=st["info"][2], flag=int(flag == target),
+                           cache=cache, rv=rv, final=final, fresh=fresh_now))
+        at += 1
+    reset_all()
+    _race_memo[name] = points
+    return points
+
+
+def race_failures(name):
+    out = []
+    for pt in race_explore(name):
+        if pt["final"] != pt["fresh"]:
+            out.append(Failure(f"toggle_race/{TOGGLE_FNS[name]}",
+                               f"{TOGGLE_FNS[name]}() with a get_cell_size() of another thread at line event #{pt['at']} "
+                               f"(function line +{pt['line']}; that call returned the {pt['rv']} value): afterwards "
+                               f"get_cell_size() = {pt['final']} but a fresh computation for the current settings gives "
+                               f"{pt['fresh']} (cache {pt['cache']})", extra=pt))
+            break
+    return out
+
+
 class C15(Property):
     id = "C15"
     title = "Cached terminal facts never outlive the condition they were computed under"
@@ -936,8 +1155,18 @@ class C15(Property):
         ti = sys.modules["term_image"]
         cc0 = list(utils._cell_size_cache)
         # what the toggles write into the cache
-        src_consts = _consts(ti.enable_queries.__code__) + _consts(ti.enable_win_size_swap.__code__) + \
-            _consts(ti.disable_win_size_swap.__code__)
+        import inspect as _insp
+
+        def fn_consts(fn, depth=0):  # the function's constants and those of the package helpers it calls
+            out = _consts(fn.__code__)
+            for name in fn.__code__.co_names:
+                g = getattr(ti, name, None)
+                if depth < 2 and _insp.isfunction(g) and g.__module__ == "term_image" and g is not fn:
+                    out += fn_consts(g, depth + 1)
+            return out
+
+        src_consts = fn_consts(ti.enable_queries) + fn_consts(ti.enable_win_size_swap) + \
+            fn_consts(ti.disable_win_size_swap)
         cleared = [c for c in src_consts if isinstance(c, tuple) and len(c) == 1 and c[0] == 0 or c == (0, 0, 0, 0)]
         mult = [c for c in src_consts if c == 4]
         if not cleared or not (mult or (0, 0, 0, 0) in cleared):
@@ -989,12 +1218,22 @@ class C15(Property):
             f"def enableQueriesInvalidates : List String := [{', '.join(chr(34) + n + chr(34) for n in inval)}]\n"
             f"def initAcr : Option Bool := {lopt(eval(acr0[0].split('=')[1]) if acr0 else 'missing')}\n"
             f"def initSupported : Option Bool := {lopt(sup0)}\n"
+            f"def swapOnSteps : List Nat := {toggle_steps(ti.enable_win_size_swap)}\n"
+            f"def swapOffSteps : List Nat := {toggle_steps(ti.disable_win_size_swap)}\n"
+            f"def qOnSteps : List Nat := {toggle_steps(ti.enable_queries)}\n"
+            f"def togglesUseUtilsGlobals : Bool := {lb(not any(hasattr(ti, n) for n in ('_cell_size_cache', '_cell_size_lock', '_tty_lock')))}\n"
             "end TIV.C15.Generated\n"
         )
         return {"TIV/C15/Generated.lean": body}
 
     # -- generator -------------------------------------------------------------------------
     def generate(self, rng, tier):
+        for name in ("swon", "swoff", "qon"):
+            steps = toggle_steps(getattr(term_image, TOGGLE_FNS[name]))
+            n = int(name != "swoff")
+            for k in range(5):
+                line = "race %d some %d %d %s %d" % (n, 1 - n, len(steps), " ".join(map(str, steps)), k)
+                yield Case(" ".join(line.split()), dict(toggle=name, k=k), "race", True)
         while True:
             r = rng.random()
             if r < 0.08:
@@ -1015,7 +1254,7 @@ class C15(Property):
                 changed = False
                 nt = False
                 for o in ops:
-                    if o in ("rs", "swon", "swoff", "qon", "qoff", "tsci", "pri", "sr", "acr"):
+                    if o in ("rs", "swon", "swoff", "qon", "qoff", "tsci", "pri", "sr", "acr", "sp", "tscr"):
                         changed = True
                     elif changed:
                         nt = True
@@ -1035,6 +1274,12 @@ class C15(Property):
             return res
         if op == "divbits":
             return "ok " + f64hex(case.data["a"] / case.data["b"])
+        if op == "race":
+            pts = [p for p in race_explore(case.data["toggle"]) if p["k"] == case.data["k"]]
+            if not pts:
+                return "err no-such-point"
+            pt = pts[0]
+            return "ok %d %s %s 4" % (pt["flag"] if case.data["toggle"] != "swoff" else 1 - pt["flag"], pt["cache"], pt["rv"])
         return "harness-bad-op"
 
     # -- oracle ------------------------------------------------------------------------------
@@ -1053,6 +1298,10 @@ class C15(Property):
                         g.case = case
                         self.more.append(g)
                 return f
+        if op == "race" and case.data["k"] == 0:
+            f = race_failures(case.data["toggle"])
+            if f:
+                return f[0]
         if op == "conc":
             runs, results = self.side.pop(case.line, (None, None))
             if runs is None:
@@ -1082,6 +1331,14 @@ class C15(Property):
         out, seen = [], set()
         alphabet = [("qoff",), ("qon",), ("swon",), ("gcs",), ("gnv",), ("iok",), ("ksup",), ("isup",), ("gco", "0"),
                     ("sr", "dynamic"), ("gcr",), ("rs", (80, 30, 0, 0, 9, 18, 720, 540))]
+        for name in ("swon", "swoff", "qon"):
+            for f in race_failures(name):
+                steps = toggle_steps(getattr(term_image, TOGGLE_FNS[name]))
+                n = int(name != "swoff")
+                f.case = Case("race %d some %d %d %s 0" % (n, 1 - n, len(steps), " ".join(map(str, steps))), dict(toggle=name, k=0))
+                out.append(f)
+        if out:
+            return out
         # targeted: a pixel-size change at unchanged cols/rows that coincides with an effective toggle
         tterm = gen_term(random.Random(7), "kitty")
         tterm.update(ioctlFail=False, ansCell=True, ansArea=True, termux=False, da1=True)
